@@ -167,6 +167,11 @@ func newHist(id int, mode string, r *gen.R, tr *gen.Trace) *Hist {
 			if r.Chance(1, 10) {
 				v.Jailed = true
 			}
+			if mode == "c19" && id%4 == 2 && i == nGen-1 {
+				// a genesis file exported while an unstake was pending: InitGenesis leaves these tokens out of the pool
+				v.Status, v.Jailed = sdk.Unstaking, false
+				v.UnstakingCompletionTime = gt.Add(3 * time.Hour)
+			}
 			g.Nodes.Validators = append(g.Nodes.Validators, v)
 		}
 		// one node key with a small balance (stake / edit "not enough coins")
